@@ -47,12 +47,12 @@ func NewStats() *Stats {
 	}
 }
 
-func (s *Stats) Probe(name string)          { s.Probes[name]++ }
-func (s *Stats) ProbeN(name string, n int)  { s.Probes[name] += int64(n) }
-func (s *Stats) World(h uint64)             { s.worlds[h] = struct{}{} }
-func (s *Stats) Nontrivial(h uint64)        { s.nontriv[h] = struct{}{} }
-func (s *Stats) Path(h uint64)              { s.paths[h] = struct{}{} }
-func (s *Stats) Sched(h uint64)             { s.scheds[h] = struct{}{} }
+func (s *Stats) Probe(name string)         { s.Probes[name]++ }
+func (s *Stats) ProbeN(name string, n int) { s.Probes[name] += int64(n) }
+func (s *Stats) World(h uint64)            { s.worlds[h] = struct{}{} }
+func (s *Stats) Nontrivial(h uint64)       { s.nontriv[h] = struct{}{} }
+func (s *Stats) Path(h uint64)             { s.paths[h] = struct{}{} }
+func (s *Stats) Sched(h uint64)            { s.scheds[h] = struct{}{} }
 func (s *Stats) AddFaults(m map[string]int) {
 	for k, v := range m {
 		s.Faults[k] += int64(v)
